@@ -5,7 +5,17 @@
 // interpreter replays only the fragments that are still live (in order) and both must answer alike
 // for every predicate name that occurs anywhere in the case: ParseQuery(name) success (and arity),
 // Show(name) success, and the key set of Query results (atoms through val.AtomKey, temporal facts
-// together with their interval).
+// together with their interval bounds: a bound is a timestamp or minus/plus infinity, so eternal,
+// half-open, point and closed intervals all compare by value). Besides the bare names, which only
+// parse while some live fragment knows the predicate, every name is also asked as an all-variables
+// atom name(X0, ..) with each arity it is written with: such a query reads the stores whatever the
+// known-predicate table says and so sees facts that a removed fragment left behind.
+//
+// The generated files and definitions cover, next to plain facts and rules, every shape of temporal
+// head annotation (eternal @[_, _], half-open @[t, _] / @[_, t], point @[t], interval @[t1, t2],
+// variable bounds copied from a temporal body literal), drawn per fragment from a mode (mixed,
+// timed only, eternal only), and non-monotone rules (aggregation with a do-transform, negation)
+// together with later definitions / files that add facts to their inputs.
 //
 // The reference is a replay by the code under test itself, never an own semantics of Mangle: what a
 // fragment means (including design observation O4: a loaded file that uses an undeclared predicate
@@ -86,19 +96,46 @@ var baseDir string
 // ---------------------------------------------------------------------------------------------
 // Observation of an interpreter.
 
-var nameRE = regexp.MustCompile(`[a-z][a-z0-9_]*\(`)
+var nameRE = regexp.MustCompile(`([a-z][a-z0-9_]*)\(([^()]*)\)?`)
 
-// names returns every predicate name that occurs in the case (sorted) plus one that never does.
-func (c Case) names() []string {
-	set := map[string]bool{"nosuch": true}
-	add := func(text string) {
-		for _, m := range nameRE.FindAllString(text, -1) {
-			n := strings.TrimSuffix(m, "(")
-			if n == "extensional" { // descriptor atom, not a predicate
-				continue
-			}
-			set[n] = true
+// scan calls fn(name, arity) for every predicate occurrence `name(args)` in text; arity is -1 if the
+// argument list is not closed (broken text). Built-in functions (fn:plus(..)) and the descriptor
+// atom extensional() are not predicates.
+func scan(text string, fn func(name string, arity int)) {
+	for _, m := range nameRE.FindAllStringSubmatchIndex(text, -1) {
+		if strings.HasSuffix(text[:m[0]], "fn:") {
+			continue
 		}
+		name := text[m[2]:m[3]]
+		if name == "extensional" {
+			continue
+		}
+		arity := -1
+		if m[4] >= 0 && strings.TrimSpace(text[m[4]:m[5]]) != "" {
+			arity = strings.Count(text[m[4]:m[5]], ",") + 1
+		}
+		fn(name, arity)
+	}
+}
+
+// names returns every predicate name that occurs in the case (sorted) plus one that never does,
+// and for every name and every arity it is written with the all-variables pattern name(X0, ..).
+// The patterns matter for predicates that no live fragment knows: ParseQuery(name) fails for them,
+// but a query atom still reads the stores and so sees facts that a removed fragment left behind.
+func (c Case) names() (names, patterns []string) {
+	set := map[string]bool{"nosuch": true}
+	pats := map[string]bool{"nosuch(X0)": true}
+	add := func(text string) {
+		scan(text, func(name string, arity int) {
+			set[name] = true
+			if arity > 0 && arity <= 3 {
+				vars := make([]string, arity)
+				for i := range vars {
+					vars[i] = fmt.Sprintf("X%d", i)
+				}
+				pats[name+"("+strings.Join(vars, ", ")+")"] = true
+			}
+		})
 	}
 	for _, f := range c.Files {
 		add(f.Text)
@@ -108,12 +145,15 @@ func (c Case) names() []string {
 			add(cmd.Arg)
 		}
 	}
-	var res []string
 	for n := range set {
-		res = append(res, n)
+		names = append(names, n)
 	}
-	sort.Strings(res)
-	return res
+	for n := range pats {
+		patterns = append(patterns, n)
+	}
+	sort.Strings(names)
+	sort.Strings(patterns)
+	return names, patterns
 }
 
 func boundKey(b ast.TemporalBound) string {
@@ -137,12 +177,35 @@ func termKey(t ast.Term) string {
 	return fmt.Sprintf("?unexpected %T %v", t, t)
 }
 
+// shapeOf classifies the interval of a temporal result (label only).
+func shapeOf(t ast.Term) string {
+	x, ok := t.(ast.TemporalAtom)
+	if !ok || x.Interval == nil {
+		return ""
+	}
+	s, e := x.Interval.Start, x.Interval.End
+	switch {
+	case x.Interval.IsEternal():
+		return "eternal"
+	case s.Type == ast.TimestampBound && e.Type == ast.TimestampBound && s.Timestamp == e.Timestamp:
+		return "point"
+	case s.Type == ast.TimestampBound && e.Type == ast.TimestampBound:
+		return "interval"
+	case s.Type == ast.TimestampBound:
+		return "from"
+	case e.Type == ast.TimestampBound:
+		return "until"
+	}
+	return "other"
+}
+
 // answer is what an interpreter says about one query text.
 type answer struct {
 	parseOK bool
 	arity   int
 	showOK  bool
-	keys    []string // sorted, without duplicates
+	keys    []string        // sorted, without duplicates
+	shapes  map[string]bool // interval shapes among the results (label only, not compared)
 }
 
 func (a answer) String() string {
@@ -190,6 +253,12 @@ func ask(i *interpreter.Interpreter, text string, withShow bool) (answer, string
 			set := map[string]bool{}
 			for _, r := range res {
 				set[termKey(r)] = true
+				if sh := shapeOf(r); sh != "" {
+					if a.shapes == nil {
+						a.shapes = map[string]bool{}
+					}
+					a.shapes[sh] = true
+				}
 			}
 			for k := range set {
 				a.keys = append(a.keys, k)
@@ -262,35 +331,134 @@ func replay(dir string, live []frag) (i *interpreter.Interpreter, problem string
 	return i, problem
 }
 
-// diff compares the long-lived interpreter with a fresh replay of live on every name (and on the
-// extra query texts); it returns a description of the first difference or "".
-func diff(dir string, real *interpreter.Interpreter, live []frag, names, queries []string) (string, bool) {
+// observation is what the long-lived interpreter answered after a command (labels only).
+type observation struct {
+	answers map[string]answer // by query text
+	shapes  map[string]bool   // interval shapes of the temporal facts the reference shows
+}
+
+// diff compares the long-lived interpreter with a fresh replay of live on every name (with Show)
+// and on the atom patterns (all-variables patterns of the names, query commands seen so far); it
+// returns a description of the first difference or "".
+func diff(dir string, real *interpreter.Interpreter, live []frag, names, patterns []string) (string, observation) {
+	obs := observation{answers: map[string]answer{}, shapes: map[string]bool{}}
 	ref, problem := replay(dir, live)
 	if problem != "" {
-		return "a fresh interpreter replaying the live fragments " + describe(live) + " " + problem, false
+		return "a fresh interpreter replaying the live fragments " + describe(live) + " " + problem, obs
 	}
-	temporal := false
-	for pass, texts := range [][]string{names, queries} {
+	for pass, texts := range [][]string{names, patterns} {
 		for _, n := range texts {
 			got, p := ask(real, n, pass == 0)
 			if p != "" {
-				return fmt.Sprintf("query %q panicked: %s", n, p), temporal
+				return fmt.Sprintf("query %q panicked: %s", n, p), obs
 			}
 			want, p := ask(ref, n, pass == 0)
 			if p != "" {
-				return fmt.Sprintf("query %q panicked on the fresh interpreter: %s", n, p), temporal
+				return fmt.Sprintf("query %q panicked on the fresh interpreter: %s", n, p), obs
 			}
-			for _, k := range want.keys {
-				if strings.Contains(k, "@[") {
-					temporal = true
-				}
+			for sh := range want.shapes {
+				obs.shapes[sh] = true
 			}
 			if !got.equal(want) {
-				return fmt.Sprintf("?%s answers %v, a fresh interpreter after %s answers %v", n, got, describe(live), want), temporal
+				return fmt.Sprintf("?%s answers %v, a fresh interpreter after %s answers %v", n, got, describe(live), want), obs
+			}
+			obs.answers[n] = got
+		}
+	}
+	return "", obs
+}
+
+// retracted reports whether some fact that before was among the answers is not among them in now.
+func retracted(before, now observation) bool {
+	for text, b := range before.answers {
+		n, ok := now.answers[text]
+		if !ok {
+			continue
+		}
+		have := map[string]bool{}
+		for _, k := range n.keys {
+			have[k] = true
+		}
+		for _, k := range b.keys {
+			if !have[k] {
+				return true
 			}
 		}
 	}
-	return "", temporal
+	return false
+}
+
+// Text classification of a fragment, for labels only. The generator writes one clause per line.
+
+var (
+	negRE  = regexp.MustCompile(`![a-z]`)
+	factRE = regexp.MustCompile(`^([a-z][a-z0-9_]*)\([0-9/a-z]*\)(@\[[^\]]*\])?\.$`)
+)
+
+// headClass tells which temporal annotations the clause heads of text carry: "" (none),
+// "eternal-only" (at least one @[_, _] and no other), "timed-only" or "mixed".
+func headClass(text string) string {
+	eternal, timed := 0, 0
+	for _, line := range strings.Split(text, "\n") {
+		head, _, _ := strings.Cut(line, ":-")
+		switch {
+		case strings.HasPrefix(line, "Decl") || !strings.Contains(head, "@["):
+		case strings.Contains(head, "@[_, _]"):
+			eternal++
+		default:
+			timed++
+		}
+	}
+	switch {
+	case eternal > 0 && timed > 0:
+		return "mixed"
+	case eternal > 0:
+		return "eternal-only"
+	case timed > 0:
+		return "timed-only"
+	}
+	return ""
+}
+
+// nonMonotoneInputs returns the predicates that occur in the body of an aggregating or negating
+// rule of text.
+func nonMonotoneInputs(text string) map[string]bool {
+	res := map[string]bool{}
+	for _, line := range strings.Split(text, "\n") {
+		_, body, isRule := strings.Cut(line, ":-")
+		if !isRule || !(strings.Contains(body, "|>") || negRE.MatchString(body)) {
+			continue
+		}
+		scan(body, func(name string, _ int) { res[name] = true })
+	}
+	return res
+}
+
+// factPreds returns the predicates for which text has a fact.
+func factPreds(text string) map[string]bool {
+	res := map[string]bool{}
+	for _, line := range strings.Split(text, "\n") {
+		if m := factRE.FindStringSubmatch(strings.TrimSpace(line)); m != nil {
+			res[m[1]] = true
+		}
+	}
+	return res
+}
+
+// fragText returns the source text of a fragment.
+func (c Case) fragText(f frag) string {
+	if f.interactive() {
+		return strings.Join(f.defs, "\n")
+	}
+	var parts []string
+	for _, p := range strings.Split(f.pathset, ",") {
+		for _, fl := range c.Files {
+			if fl.Name == p {
+				parts = append(parts, fl.Text)
+			}
+		}
+	}
+	return strings.Join(parts, "\n")
 }
 
 // ---------------------------------------------------------------------------------------------
@@ -350,7 +518,7 @@ func check(run *stats.Run, f stats.Failer, c Case) (v verdict) {
 	for _, fl := range c.Files {
 		kindOf[fl.Name] = fl.Kind
 	}
-	names := c.names()
+	names, patterns := c.names()
 
 	var out bytes.Buffer
 	var real *interpreter.Interpreter
@@ -361,6 +529,11 @@ func check(run *stats.Run, f stats.Failer, c Case) (v verdict) {
 	// refused load of an already loaded pathset whose two readings cannot be told apart yet.
 	cands := [][]frag{nil}
 	var queries []string // query commands seen so far are re-asked after every later command
+	var prev observation // what the interpreter answered after the previous command
+	// bufferRetracted: an accepted define made a fact of the live interactive definitions disappear
+	// (a non-monotone rule saw its input change) and these definitions are still live.
+	bufferRetracted := false
+	rejectedLoads := map[string]bool{} // pathsets the interpreter rejected earlier in the history
 	history := func(n int) string {
 		var parts []string
 		for _, cmd := range c.Cmds[:n+1] {
@@ -385,12 +558,32 @@ func check(run *stats.Run, f stats.Failer, c Case) (v verdict) {
 				if interactiveLive {
 					labels["define-extends-buffer"] = true
 				}
+				below := map[string]bool{}
+				for _, fr := range live {
+					for n := range nonMonotoneInputs(c.fragText(fr)) {
+						below[n] = true
+					}
+				}
+				for n := range factPreds(cmd.Arg) {
+					if below[n] {
+						labels["define-adds-fact-under-live-nonmonotone-rule"] = true
+					}
+				}
 			} else {
 				labels["define-rejected"] = true
 				labels["define-rejected:"+errKind(cerr)] = true
 				if interactiveLive {
 					labels["NT:rejected-define-after-accepted"] = true
 					v.nontrivial = true
+					if errKind(cerr) != "parse" && bufferRetracted {
+						labels["define-rejected-after-retraction"] = true
+					}
+					if hc := headClass(c.fragText(live[len(live)-1])); errKind(cerr) != "parse" && hc != "" {
+						labels["define-rejected-over-temporal-buffer:"+hc] = true
+					}
+				}
+				if errKind(cerr) == "eval" && headClass(cmd.Arg) != "" {
+					labels["define-rejected-at-eval-with-temporal-heads:"+headClass(cmd.Arg)] = true
 				}
 			}
 		case opLoad:
@@ -403,6 +596,22 @@ func check(run *stats.Run, f stats.Failer, c Case) (v verdict) {
 			}
 			if interactiveLive {
 				labels["load-with-interactive-live"] = true
+				if hc := headClass(c.fragText(live[len(live)-1])); hc != "" {
+					labels["removed-fragment-temporal-heads:"+hc] = true
+				}
+			}
+			text := c.fragText(frag{pathset: cmd.Arg})
+			if rejectedLoads[cmd.Arg] && !isLive(live, cmd.Arg) {
+				labels["load-of-earlier-rejected-pathset"] = true
+				if interactiveLive {
+					labels["load-of-earlier-rejected-pathset:over-interactive"] = true
+				}
+				if cerr == nil {
+					labels["load-of-earlier-rejected-pathset:accepted-now"] = true
+				}
+			}
+			if cerr != nil && !isLive(live, cmd.Arg) {
+				rejectedLoads[cmd.Arg] = true
 			}
 			switch {
 			case cerr == nil:
@@ -413,6 +622,28 @@ func check(run *stats.Run, f stats.Failer, c Case) (v verdict) {
 				if isLive(live, cmd.Arg) {
 					labels["load-duplicate-accepted"] = true
 				}
+				if strings.Contains(text, "|>") {
+					labels["load-ok:has-aggregation"] = true
+				}
+				if negRE.MatchString(text) {
+					labels["load-ok:has-negation"] = true
+				}
+				if hc := headClass(text); hc != "" {
+					labels["load-ok:temporal-heads:"+hc] = true
+				}
+				below := map[string]bool{}
+				for _, fr := range live {
+					if !fr.interactive() {
+						for n := range nonMonotoneInputs(c.fragText(fr)) {
+							below[n] = true
+						}
+					}
+				}
+				for n := range factPreds(text) {
+					if below[n] {
+						labels["load-adds-fact-under-live-nonmonotone-rule"] = true
+					}
+				}
 			case isLive(live, cmd.Arg):
 				labels["load-duplicate-refused"] = true
 			default:
@@ -420,6 +651,9 @@ func check(run *stats.Run, f stats.Failer, c Case) (v verdict) {
 				labels["load-rejected:"+errKind(cerr)] = true
 				if len(paths) == 1 {
 					labels["load-rejected:"+kindOf[paths[0]]+"-file"] = true
+				}
+				if len(paths) == 1 && kindOf[paths[0]] == fEvalErr && headClass(text) != "" {
+					labels["load-rejected-at-eval-with-temporal-heads:"+headClass(text)] = true
 				}
 			}
 		case opPop:
@@ -433,6 +667,11 @@ func check(run *stats.Run, f stats.Failer, c Case) (v verdict) {
 				labels["pop-interactive"] = true
 			default:
 				labels["pop-file"] = true
+			}
+			if len(live) > 0 {
+				if hc := headClass(c.fragText(live[len(live)-1])); hc != "" {
+					labels["removed-fragment-temporal-heads:"+hc] = true
+				}
 			}
 			if len(live) >= 2 {
 				labels["NT:pop-after-2-pushes"] = true
@@ -448,7 +687,7 @@ func check(run *stats.Run, f stats.Failer, c Case) (v verdict) {
 		var next [][]frag
 		var reasons []string
 		seen := map[string]bool{}
-		temporal := false
+		var obs observation
 		for _, before := range cands {
 			if cerr != nil {
 				// The rejection must not stem from left-over state.
@@ -462,12 +701,12 @@ func check(run *stats.Run, f stats.Failer, c Case) (v verdict) {
 					continue
 				}
 				seen[describe(after)] = true
-				d, tmp := diff(dir, real, after, names, queries)
+				d, o := diff(dir, real, after, names, append(append([]string{}, patterns...), queries...))
 				if d != "" {
 					reasons = append(reasons, d)
 					continue
 				}
-				temporal = temporal || tmp
+				obs = o
 				next = append(next, after)
 			}
 		}
@@ -478,9 +717,26 @@ func check(run *stats.Run, f stats.Failer, c Case) (v verdict) {
 		if len(cands) > 1 {
 			labels["two-admissible-states"] = true
 		}
-		if temporal {
+		if len(obs.shapes) > 0 {
 			labels["temporal-facts-visible"] = true
 		}
+		for sh := range obs.shapes {
+			labels["temporal-facts-visible:"+sh] = true
+		}
+		top := len(cands[0]) - 1
+		switch {
+		case top < 0 || !cands[0][top].interactive():
+			bufferRetracted = false
+		case cmd.Op == opDefine && cerr == nil && interactiveLive && retracted(prev, obs):
+			labels["define-retracts-fact"] = true
+			bufferRetracted = true
+		}
+		if top >= 0 && cerr == nil && (cmd.Op == opDefine || cmd.Op == opLoad) {
+			if hc := headClass(c.fragText(cands[0][top])); hc != "" {
+				labels["top-fragment-temporal-heads:"+hc] = true
+			}
+		}
+		prev = obs
 		if len(cands[0]) >= 3 {
 			labels["depth>=3"] = true
 		}
@@ -600,9 +856,70 @@ func interval(t *rapid.T, backwards bool) string {
 	return fmt.Sprintf("@[2024-01-%02d, 2024-01-%02d]", a, b)
 }
 
+// Temporal modes of a fragment: which annotations its clause heads may carry.
+const (
+	tmMixed   = "mixed"   // every shape, the eternal one included
+	tmEternal = "eternal" // only @[_, _]: heads are annotated, yet none of them carries a time
+	tmTimed   = "timed"   // every shape but the eternal one
+)
+
+func genMode(t *rapid.T) string {
+	return pick(t, "tmode", tmMixed, tmMixed, tmEternal, tmEternal, tmTimed)
+}
+
+// constAnn draws a head annotation without variables (for a fact, or a rule head over any body):
+// interval @[t1, t2], point @[t], half-open @[t, _] / @[_, t], eternal @[_, _].
+func constAnn(t *rapid.T, tm string) string {
+	if tm == tmEternal {
+		return "@[_, _]"
+	}
+	a := rng(t, "d1", 1, 4)
+	b := rng(t, "d2", a, 5)
+	shapes := []string{"interval", "interval", "point", "from", "until"}
+	if tm == tmMixed {
+		shapes = append(shapes, "eternal", "eternal")
+	}
+	switch pick(t, "annshape", shapes...) {
+	case "interval":
+		return fmt.Sprintf("@[2024-01-%02d, 2024-01-%02d]", a, b)
+	case "point":
+		return fmt.Sprintf("@[2024-01-%02d]", a)
+	case "from":
+		return fmt.Sprintf("@[2024-01-%02d, _]", a)
+	case "until":
+		return fmt.Sprintf("@[_, 2024-01-%02d]", b)
+	}
+	return "@[_, _]"
+}
+
+// varAnn draws the head annotation of a rule whose body has a temporal literal ..@[S, E].
+func varAnn(t *rapid.T, tm string) string {
+	if tm == tmEternal {
+		return "@[_, _]"
+	}
+	shapes := []string{"@[S, E]", "@[S, E]", "@[S, E]", "@[S, _]", "@[_, E]", "@[S]", "@[E]", "@[2023-12-31, E]", "@[S, 2024-02-01]"}
+	if tm == tmMixed {
+		shapes = append(shapes, "@[_, _]", "@[_, _]")
+	}
+	return pick(t, "varshape", shapes...)
+}
+
+// aggregate writes an aggregating rule for head over src (and, grouped, over the pairs of key and src).
+func aggregate(t *rapid.T, head, key, src string) string {
+	switch rng(t, "gshape", 0, 4) {
+	case 0, 1:
+		return fmt.Sprintf("%s(N) :- %s(X) |> do fn:group_by(), let N = fn:count().", head, src)
+	case 2:
+		return fmt.Sprintf("%s(N) :- %s(X) |> do fn:group_by(), let N = fn:sum(X).", head, src)
+	case 3:
+		return fmt.Sprintf("%s(N) :- %s(X) |> do fn:group_by(), let N = fn:max(X).", head, src)
+	}
+	return fmt.Sprintf("%s(X, N) :- %s(X), %s(Y) |> do fn:group_by(X), let N = fn:count().", head, key, src)
+}
+
 // File kinds.
 const (
-	fBase      = "base"      // independent: declared (with bounds) and synthetic predicates, rules, temporal facts
+	fBase      = "base"      // independent: declared (with bounds) and synthetic predicates, rules, aggregation, negation, temporal facts and rules
 	fDependent = "dependent" // uses / extends predicates of an earlier base file
 	fParseErr  = "parse-error"
 	fAnalysis  = "analysis-error"
@@ -614,7 +931,9 @@ const (
 
 func genBase(t *rapid.T, k int) string {
 	var sb strings.Builder
-	if chance(t, "hasE", 70) {
+	tm := genMode(t)
+	hasE := chance(t, "hasE", 70)
+	if hasE {
 		fmt.Fprintf(&sb, "Decl e%d(X) descr [extensional()] bound [/number].\n", k)
 		for i, n := 0, rng(t, "ne", 0, 2); i < n; i++ {
 			fmt.Fprintf(&sb, "e%d(%d).\n", k, num(t))
@@ -624,7 +943,8 @@ func genBase(t *rapid.T, k int) string {
 	for i, n := 0, rng(t, "np", 1, 3); i < n; i++ {
 		fmt.Fprintf(&sb, "p%d(%d).\n", k, num(t))
 	}
-	for i, n := 0, rng(t, "ns", 0, 2); i < n; i++ {
+	ns := rng(t, "ns", 0, 2)
+	for i := 0; i < ns; i++ {
 		fmt.Fprintf(&sb, "s%d(%d).\n", k, num(t))
 	}
 	if chance(t, "hasR", 60) {
@@ -640,6 +960,25 @@ func genBase(t *rapid.T, k int) string {
 			fmt.Fprintf(&sb, "r%d(Y) :- p%d(X), Y = fn:plus(X, %d).\n", k, k, num(t))
 		}
 	}
+	// Non-monotone rules: the derived facts depend on what is NOT (yet) among the inputs.
+	if chance(t, "hasG", 50) {
+		src := "p"
+		if hasE && chance(t, "aggOverE", 60) {
+			src = "e"
+		}
+		sb.WriteString(aggregate(t, fmt.Sprintf("g%d", k), fmt.Sprintf("p%d", k), fmt.Sprintf("%s%d", src, k)) + "\n")
+	}
+	if chance(t, "hasN", 50) {
+		switch {
+		case hasE && chance(t, "negE", 60):
+			fmt.Fprintf(&sb, "n%d(X) :- p%d(X), !e%d(X).\n", k, k, k)
+		case ns > 0 && chance(t, "negS", 60):
+			fmt.Fprintf(&sb, "n%d(X) :- p%d(X), !s%d(X).\n", k, k, k)
+		default:
+			fmt.Fprintf(&sb, "n%d(X) :- p%d(X), Y = fn:plus(X, 1), !p%d(Y).\n", k, k, k)
+		}
+	}
+	// Temporal predicates; the mode of the file decides which annotations the heads carry.
 	if chance(t, "hasT", 60) {
 		if chance(t, "extT", 50) {
 			fmt.Fprintf(&sb, "Decl t%d(X) temporal descr [extensional()] bound [/number].\n", k)
@@ -647,23 +986,49 @@ func genBase(t *rapid.T, k int) string {
 			fmt.Fprintf(&sb, "Decl t%d(X) temporal bound [/number].\n", k)
 		}
 		for i, n := 0, rng(t, "nt", 0, 2); i < n; i++ {
-			fmt.Fprintf(&sb, "t%d(%d)%s.\n", k, num(t), interval(t, false))
+			fmt.Fprintf(&sb, "t%d(%d)%s.\n", k, num(t), constAnn(t, tm))
 		}
 		if chance(t, "hasU", 40) {
-			fmt.Fprintf(&sb, "u%d(X)@[S, E] :- t%d(X)@[S, E].\n", k, k)
+			fmt.Fprintf(&sb, "u%d(X)%s :- t%d(X)@[S, E].\n", k, varAnn(t, tm), k)
 		}
 		if chance(t, "hasV", 40) {
 			fmt.Fprintf(&sb, "v%d(X) :- t%d(X)@[S, E].\n", k, k)
 		}
 	}
+	if chance(t, "hasA", 30) { // annotated facts of a predicate without declaration
+		for i, n := 0, rng(t, "na", 1, 2); i < n; i++ {
+			fmt.Fprintf(&sb, "a%d(%d)%s.\n", k, num(t), constAnn(t, tm))
+		}
+	}
+	if chance(t, "hasO", 30) { // annotated head over a body without time
+		fmt.Fprintf(&sb, "o%d(X)%s :- p%d(X).\n", k, constAnn(t, tm), k)
+	}
 	return sb.String()
 }
 
-func genDependent(t *rapid.T, k, j int) string {
+// genDependent writes file k over the predicates of the earlier file j (base: its text).
+func genDependent(t *rapid.T, k, j int, base string) string {
 	var sb strings.Builder
-	n := rng(t, "nclauses", 1, 3)
+	tm := genMode(t)
+	moreE := 30
+	if in := nonMonotoneInputs(base); in[fmt.Sprintf("e%d", j)] {
+		moreE = 75 // the input of the earlier file's g<j> / n<j> changes for every later reader
+	}
+	if chance(t, "moreE", moreE) {
+		fmt.Fprintf(&sb, "e%d(%d).\n", j, num(t))
+	}
+	// needs: the predicate of the earlier file that clause shape number d reads
+	needs := map[int]string{1: "e", 2: "r", 3: "s", 6: "t", 7: "t", 8: "t", 9: "e", 10: "e", 14: "e"}
+	n := rng(t, "nclauses", 1, 4)
 	for i := 0; i < n; i++ {
-		switch rng(t, "dep", 0, 7) {
+		d := rng(t, "dep", 0, 14)
+		for try := 0; try < 3; try++ { // mostly shapes whose predicate the earlier file has
+			if p, ok := needs[d]; !ok || strings.Contains(base, fmt.Sprintf("%s%d(", p, j)) || chance(t, "anyway", 20) {
+				break
+			}
+			d = rng(t, "dep", 0, 14)
+		}
+		switch d {
 		case 0:
 			fmt.Fprintf(&sb, "q%d(X) :- p%d(X).\n", k, j)
 		case 1:
@@ -672,14 +1037,24 @@ func genDependent(t *rapid.T, k, j int) string {
 			fmt.Fprintf(&sb, "q%d(X) :- r%d(X).\n", k, j)
 		case 3: // O4 when s<j> is synthetic: fails bounds checking in a loaded file
 			fmt.Fprintf(&sb, "q%d(X) :- s%d(X).\n", k, j)
-		case 4: // more facts for an extensional predicate of the earlier file
+		case 4, 5: // more facts for an extensional predicate of the earlier file (an input of its n<j>, g<j>)
 			fmt.Fprintf(&sb, "e%d(%d).\n", j, num(t))
-		case 5:
-			fmt.Fprintf(&sb, "t%d(%d)%s.\n", j, num(t), interval(t, false))
 		case 6:
-			fmt.Fprintf(&sb, "u%d(X)@[S, E] :- t%d(X)@[S, E].\n", k, j)
-		default:
+			fmt.Fprintf(&sb, "t%d(%d)%s.\n", j, num(t), constAnn(t, tm))
+		case 7:
+			fmt.Fprintf(&sb, "u%d(X)%s :- t%d(X)@[S, E].\n", k, varAnn(t, tm), j)
+		case 8:
 			fmt.Fprintf(&sb, "v%d(X) :- t%d(X)@[S, E].\n", k, j)
+		case 9:
+			sb.WriteString(aggregate(t, fmt.Sprintf("g%d", k), fmt.Sprintf("p%d", j), fmt.Sprintf("e%d", j)) + "\n")
+		case 10:
+			fmt.Fprintf(&sb, "n%d(X) :- p%d(X), !e%d(X).\n", k, j, j)
+		case 11:
+			fmt.Fprintf(&sb, "a%d(%d)%s.\n", k, num(t), constAnn(t, tm))
+		case 14: // evaluation fails or not depending on the facts that are live (e<j>(0), p<j>(0))
+			fmt.Fprintf(&sb, "z%d(Y) :- %s%d(X), Y = fn:div(6, X).\n", k, pick(t, "divsrc", "e", "e", "p"), j)
+		default:
+			fmt.Fprintf(&sb, "o%d(X)%s :- p%d(X).\n", k, constAnn(t, tm), j)
 		}
 	}
 	if chance(t, "ownP", 50) {
@@ -688,7 +1063,7 @@ func genDependent(t *rapid.T, k, j int) string {
 	return sb.String()
 }
 
-func genFile(t *rapid.T, k int, bases []int) File {
+func genFile(t *rapid.T, k int, bases []int, files []File) File {
 	f := File{Name: fmt.Sprintf("f%d.mg", k)}
 	kinds := []string{fBase, fBase, fParseErr, fAnalysis, fEvalErr, fEmpty}
 	if len(bases) > 0 {
@@ -706,7 +1081,7 @@ func genFile(t *rapid.T, k int, bases []int) File {
 	case fBase:
 		f.Text = genBase(t, k)
 	case fDependent:
-		f.Text = genDependent(t, k, j)
+		f.Text = genDependent(t, k, j, files[j].Text)
 	case fParseErr:
 		f.Text = fmt.Sprintf("p%d(%d).\n", k, num(t)) + pick(t, "broken",
 			fmt.Sprintf("p%d(1\n", k), fmt.Sprintf("q%d(X) :- .\n", k), fmt.Sprintf("q%d(X) :- p%d(X)\n", k, k), "Decl .\n")
@@ -720,7 +1095,9 @@ func genFile(t *rapid.T, k int, bases []int) File {
 	case fEvalErr:
 		f.Text = pick(t, "evalerr",
 			fmt.Sprintf("Decl p%d(X) bound [/number].\np%d(%d).\nz%d(Y) :- p%d(X), Y = fn:div(X, 0).\n", k, k, num(t), k, k),
-			fmt.Sprintf("p%d(%d).\ny%d(%d)%s.\n", k, num(t), k, num(t), interval(t, true)))
+			fmt.Sprintf("p%d(%d).\ny%d(%d)%s.\n", k, num(t), k, num(t), interval(t, true)),
+			// temporal facts are written before the rule fails
+			fmt.Sprintf("Decl p%d(X) bound [/number].\np%d(%d).\na%d(%d)%s.\nz%d(Y) :- p%d(X), Y = fn:div(X, 0).\n", k, k, num(t), k, num(t), constAnn(t, genMode(t)), k, k))
 	case fConflict:
 		f.Text = fmt.Sprintf("Decl p%d(X) bound [/number].\np%d(%d).\n", k, k, num(t)) + pick(t, "clash",
 			fmt.Sprintf("p%d(%d).\n", j, num(t)),
@@ -753,14 +1130,50 @@ const (
 	dEvalErr   = "eval-error"
 	dRedefine  = "redefine-file-predicate"
 	dRedeclare = "redeclare-file-predicate"
+	dAggregate = "aggregate"    // rule with a do-transform over interactive or file predicates
+	dNegation  = "negation"     // rule with a negated atom
+	dChange    = "change-input" // a fact for a predicate that a non-monotone rule of the live buffer reads
 )
 
-// genDefine draws a definition; j is the file whose predicates it may mention.
-func genDefine(t *rapid.T, j int) Cmd {
-	kind := pick(t, "defkind", dFact, dFact, dFact, dRule, dRule, dRule, dDecl, dTemporal, dTemporal, dExtend, dMulti,
-		dParseErr, dAnalysis, dAnalysis, dEvalErr, dRedefine, dRedefine, dRedeclare)
+// nmInput is a predicate read by a non-monotone interactive rule that a later define can extend;
+// vals are the values for which a new fact is known to take a derived fact away (else: any new one).
+type nmInput struct {
+	pred string
+	vals []int
+}
+
+// session is the generator's estimate of the interactive fragment.
+type session struct {
+	tm      string    // temporal mode of its definitions
+	inputs  []nmInput // inputs of its non-monotone rules
+	changed bool      // a change-input define followed such a rule
+}
+
+// genDefine draws a definition of the given kind ("" = any); j is the file whose predicates it may
+// mention, ses the interactive fragment it is meant to join. It returns the predicates read by its
+// non-monotone rules that further interactive facts can extend.
+func genDefine(t *rapid.T, j int, kind string, ses *session) (Cmd, []nmInput) {
+	if kind == "" {
+		kind = pick(t, "defkind", dFact, dFact, dFact, dRule, dRule, dRule, dDecl, dTemporal, dTemporal, dTemporal, dTemporal, dTemporal,
+			dExtend, dMulti, dParseErr, dAnalysis, dAnalysis, dEvalErr, dEvalErr, dRedefine, dRedefine, dRedeclare,
+			dAggregate, dAggregate, dAggregate, dAggregate, dNegation, dNegation, dNegation, dNegation)
+	}
+	if kind == dChange && len(ses.inputs) == 0 {
+		kind = dFact
+	}
 	i := rng(t, "ipred", 0, 2)
+	tm := ses.tm
 	var text string
+	var inputs []nmInput
+	// own draws an interactive predicate and (mostly) a fact for it, so that a rule over it has input
+	own := func(label string, i int) (string, string, []int) {
+		p := fmt.Sprintf("i%d", i)
+		if chance(t, label, 70) {
+			v := num(t)
+			return p, fmt.Sprintf("%s(%d).\n", p, v), []int{v}
+		}
+		return p, "", nil
+	}
 	switch kind {
 	case dFact:
 		text = fmt.Sprintf("i%d(%d).", i, num(t))
@@ -773,11 +1186,19 @@ func genDefine(t *rapid.T, j int) Cmd {
 	case dDecl:
 		text = fmt.Sprintf("Decl i%d(X).", i)
 	case dTemporal:
+		src := pick(t, "tsrc", fmt.Sprintf("i%d", i), fmt.Sprintf("p%d", j), fmt.Sprintf("e%d", j))
 		text = pick(t, "tdef",
-			fmt.Sprintf("j%d(%d)%s.", i, num(t), interval(t, false)),
+			fmt.Sprintf("j%d(%d)%s.", i, num(t), constAnn(t, tm)),
+			fmt.Sprintf("j%d(%d)%s.", i, num(t), constAnn(t, tm)),
+			fmt.Sprintf("t%d(%d)%s.", j, num(t), constAnn(t, tm)),
 			fmt.Sprintf("w%d(X) :- t%d(X)@[S, E].", i, j),
 			fmt.Sprintf("w%d(X) :- j%d(X)@[S, E].", i, i),
-			fmt.Sprintf("t%d(%d)%s.", j, num(t), interval(t, false)))
+			// a declared temporal predicate (the line break keeps Decl apart from the buffer's last '.')
+			fmt.Sprintf("\nDecl d%d(X) temporal bound [/number].\nd%d(%d)%s.", i, i, num(t), constAnn(t, tm)),
+			fmt.Sprintf("\nDecl d%d(X) temporal bound [/number].\nd%d(%d)%s.\nl%d(X)%s :- d%d(X)@[S, E].", i, i, num(t), constAnn(t, tm), i, varAnn(t, tm), i),
+			fmt.Sprintf("l%d(X)%s :- %s(X).", i, constAnn(t, tm), src),
+			fmt.Sprintf("l%d(X)%s :- %s(X).", i, constAnn(t, tm), src),
+			fmt.Sprintf("l%d(X)%s :- t%d(X)@[S, E].", i, varAnn(t, tm), j))
 	case dExtend:
 		text = fmt.Sprintf("e%d(%d).", j, num(t))
 	case dMulti:
@@ -794,19 +1215,71 @@ func genDefine(t *rapid.T, j int) Cmd {
 		text = pick(t, "evalerr",
 			fmt.Sprintf("z%d(Y) :- %s(X), Y = fn:div(X, 0).", i, filePred(t, j)),
 			fmt.Sprintf("z%d(Y) :- i%d(X), Y = fn:div(X, 0).", i, i),
-			fmt.Sprintf("j%d(%d)%s.", i, num(t), interval(t, true)))
+			fmt.Sprintf("j%d(%d)%s.", i, num(t), interval(t, true)),
+			// fails or not depending on the facts that are live
+			fmt.Sprintf("z%d(Y) :- %s(X), Y = fn:div(6, X).", i, pick(t, "divsrc", fmt.Sprintf("i%d", i), fmt.Sprintf("e%d", j), fmt.Sprintf("p%d", j))),
+			// facts (plain and temporal) are written before the rule fails
+			fmt.Sprintf("i%d(%d).\nj%d(%d)%s.\nz%d(Y) :- i%d(X), Y = fn:div(X, 0).", i, num(t), i, num(t), constAnn(t, tm), i, i),
+			fmt.Sprintf("i%d(%d).\nl%d(X)%s :- i%d(X).\nz%d(Y) :- i%d(X), Y = fn:div(X, 0).", i, num(t), i, constAnn(t, tm), i, i, i))
 	case dRedefine:
 		text = pick(t, "redef",
 			fmt.Sprintf("%s(%d).", filePred(t, j), num(t)),
 			fmt.Sprintf("%s(X) :- i%d(X).", filePred(t, j), i),
-			fmt.Sprintf("t%d(%d)%s.", j, num(t), interval(t, false)))
+			fmt.Sprintf("t%d(%d)%s.", j, num(t), constAnn(t, tm)))
 	case dRedeclare:
 		text = fmt.Sprintf("Decl %s(X).", filePred(t, j))
 		if chance(t, "withBadClause", 50) {
 			text += fmt.Sprintf("\nk%d(X) :- nope(X).", i)
 		}
+	case dAggregate:
+		src, facts := fmt.Sprintf("e%d", j), ""
+		switch rng(t, "aggsrc", 0, 9) {
+		case 0, 1, 2, 3, 4:
+			src, facts, _ = own("aggFact", (i+1)%3)
+		case 5:
+			src = fmt.Sprintf("p%d", j)
+		}
+		key, keyFacts := fmt.Sprintf("p%d", j), ""
+		if chance(t, "ownKey", 50) {
+			key, keyFacts, _ = own("keyFact", (i+2)%3)
+		}
+		rule := aggregate(t, fmt.Sprintf("c%d", i), key, src)
+		if strings.Contains(rule, key+"(X)") {
+			facts += keyFacts
+		}
+		text = facts + rule
+		if src[0] != 'p' { // interactive facts for a predicate that a file declares non-extensional are refused
+			inputs = []nmInput{{pred: src}}
+		}
+	case dNegation:
+		pos, facts, vals := fmt.Sprintf("p%d", j), "", []int(nil)
+		if chance(t, "ownPos", 60) {
+			pos, facts, vals = own("posFact", (i+1)%3)
+		}
+		neg := fmt.Sprintf("e%d", j)
+		if chance(t, "ownNeg", 60) {
+			neg = fmt.Sprintf("i%d", (i+2)%3)
+			if chance(t, "negFact", 85) { // without any clause the negated predicate would be unknown
+				v := num(t)
+				if len(vals) > 0 && chance(t, "negOther", 75) { // leaves the positive fact standing
+					v = (vals[0] + rng(t, "negShift", 1, 3)) % 4
+				}
+				facts += fmt.Sprintf("%s(%d).\n", neg, v)
+			}
+		}
+		text = facts + fmt.Sprintf("f%d(X) :- %s(X), !%s(X).", i, pos, neg)
+		inputs = []nmInput{{pred: neg, vals: vals}}
+	case dChange:
+		in, v := pick(t, "input", ses.inputs...), num(t)
+		if len(in.vals) > 0 && chance(t, "hitInput", 70) {
+			v = pick(t, "inputval", in.vals...)
+		}
+		text = fmt.Sprintf("%s(%d).", in.pred, v)
 	}
-	return Cmd{Op: opDefine, Arg: text, Kind: kind}
+	if chance(t, "newline", 30) {
+		text += "\n"
+	}
+	return Cmd{Op: opDefine, Arg: text, Kind: kind}, inputs
 }
 
 func genCase(t *rapid.T) Case {
@@ -814,7 +1287,7 @@ func genCase(t *rapid.T) Case {
 	nf := rng(t, "nfiles", 4, 6)
 	var bases, good, empties []int
 	for k := 0; k < nf; k++ {
-		f := genFile(t, k, bases)
+		f := genFile(t, k, bases, c.Files)
 		switch f.Kind {
 		case fBase:
 			bases = append(bases, k)
@@ -830,9 +1303,12 @@ func genCase(t *rapid.T) Case {
 	ncmd := rng(t, "ncmds", 1, 14)
 	// The generator keeps a rough estimate of the stack (assuming that files of a loadable kind load
 	// and definitions are accepted) only to steer the history towards deep stacks, pops that have
-	// something to pop and definitions that mention loaded predicates. The oracle never uses it.
+	// something to pop, definitions that mention loaded predicates, facts that change the input of a
+	// non-monotone interactive rule and rejected definitions after that. The oracle never uses it.
 	var stack [][]int // file indices per estimated fragment; nil = interactive
+	var ses *session  // non-nil iff the estimated top fragment is interactive
 	lastLoad := ""
+	var failed []string // pathsets of earlier loads that probably were rejected
 	for n := 0; n < ncmd; n++ {
 		depth := len(stack)
 		wLoad, wDefine, wPop, wQuery := 30, 32, 26, 12
@@ -842,6 +1318,15 @@ func genCase(t *rapid.T) Case {
 			wLoad, wDefine, wPop, wQuery = 45, 35, 10, 10
 		}
 		op := rng(t, "op", 0, wLoad+wDefine+wPop+wQuery-1)
+		forced := ""
+		if ses != nil && len(ses.inputs) > 0 {
+			switch {
+			case chance(t, "changeInput", 40):
+				op, forced = wLoad, dChange
+			case ses.changed && chance(t, "rejectAfterChange", 45):
+				op, forced = wLoad, pick(t, "rejectKind", dAnalysis, dEvalErr)
+			}
+		}
 		// a file that is probably loaded, else any
 		loadedFile := rng(t, "anyfile", 0, nf-1)
 		var loaded []int
@@ -858,6 +1343,9 @@ func genCase(t *rapid.T) Case {
 			idx := []int{}
 			if lastLoad != "" && chance(t, "sameAgain", 8) {
 				arg = lastLoad
+			} else if len(failed) > 0 && chance(t, "retryRejected", 15) {
+				// the same pathset once more: rejected again, or accepted now that other fragments are live
+				arg = pick(t, "failed", failed...)
 			} else if len(empties) > 0 && chance(t, "emptyFile", 15) {
 				// a file without definitions can be analysed any number of times (K19)
 				arg = c.Files[pick(t, "empty", empties...)].Name
@@ -896,28 +1384,49 @@ func genCase(t *rapid.T) Case {
 			if depth > 0 && stack[depth-1] == nil {
 				stack = stack[:depth-1]
 			}
+			ses = nil
 			if pushes {
 				stack = append(stack, idx)
+			} else if len(idx) > 0 {
+				failed = append(failed, arg)
 			}
 			c.Cmds = append(c.Cmds, Cmd{Op: opLoad, Arg: arg})
 		case op < wLoad+wDefine:
-			d := genDefine(t, loadedFile)
+			cur := ses
+			if cur == nil {
+				cur = &session{tm: genMode(t)}
+			}
+			d, inputs := genDefine(t, loadedFile, forced, cur)
 			c.Cmds = append(c.Cmds, d)
-			probablyOK := d.Kind == dFact || d.Kind == dDecl || d.Kind == dMulti || d.Kind == dTemporal || d.Kind == dRule
-			if probablyOK && (depth == 0 || stack[depth-1] != nil) {
-				stack = append(stack, nil)
+			probablyOK := d.Kind == dFact || d.Kind == dDecl || d.Kind == dMulti || d.Kind == dTemporal || d.Kind == dRule ||
+				d.Kind == dAggregate || d.Kind == dNegation || d.Kind == dChange
+			if probablyOK {
+				if ses == nil {
+					stack = append(stack, nil)
+					ses = cur
+				}
+				if d.Kind == dChange {
+					ses.changed = true
+				}
+				ses.inputs = append(ses.inputs, inputs...)
 			}
 		case op < wLoad+wDefine+wPop:
 			c.Cmds = append(c.Cmds, Cmd{Op: opPop})
 			if depth > 0 {
 				stack = stack[:depth-1]
 			}
+			ses = nil
 		default:
+			qi := rng(t, "qi", 0, 2)
 			arg := pick(t, "qshape",
 				fmt.Sprintf("%s(X)", filePred(t, loadedFile)),
 				fmt.Sprintf("%s(%d)", filePred(t, loadedFile), num(t)),
 				fmt.Sprintf("t%d(X)", loadedFile),
-				fmt.Sprintf("i%d(%d)", rng(t, "qi", 0, 2), num(t)))
+				fmt.Sprintf("i%d(%d)", qi, num(t)),
+				fmt.Sprintf("%s%d(%d)", pick(t, "qtemporal", "t", "a", "o", "u"), loadedFile, num(t)),
+				fmt.Sprintf("%s%d(%d)", pick(t, "qdefined", "j", "l", "d", "c", "f"), qi, num(t)),
+				fmt.Sprintf("%s%d(X)", pick(t, "qnonmono", "g", "n"), loadedFile),
+				fmt.Sprintf("c%d(X, %d)", qi, rng(t, "qn", 1, 3)))
 			c.Cmds = append(c.Cmds, Cmd{Op: opQuery, Arg: arg})
 		}
 	}
